@@ -3,13 +3,15 @@
 
    [split_bil c] / [split_lin c] / [lower_form c] : the model of _split_expr_over_interface and of the
    interface loop of TerminalExpr.eval (Model/InterfaceM.v), c = [cfg_repaired] being the code under
-   study (sympde after the repairs dace187 / 6d0684b / 4ecfb40) and [cfg_found] the code before them;
+   study (sympde after the repairs dace187 / 6d0684b / 4ecfb40 / b51ca38) and [cfg_found] the code before them;
    [iden e] : the meaning of an interface integrand (jump(w) = w^- - w^+, avg(w) = (w^- + w^+)/2, the
    restriction of grad / div / Dn of w is grad / div / Dn of the restricted w);
    [piece [u] [v] s t E] : E with the other-side restriction of the trial function u and of the test
    function v set to 0;  [read_minus] / [read_plus] : how a boundary kernel on the face of the minus /
    plus patch is read in the two-sided environment (every function is the restriction to that side; on
-   the plus face the normal of the interface is the reversed normal);  "for all smooth functions and
+   the plus face the normal of the interface is the reversed normal);  product spaces: [split_bil c trials
+   tests] runs the double loop over all (trial, test) pairs and ACCUMULATES the same-side blocks per face,
+   [piece_key trials tests ((u, s), (v, t)) E] is the block of one pair;  "for all smooth functions and
    points" is "for every differential field S" (DESIGN 4.2).
    The only side condition left, [fields_on s (piece .. s s ..)], says that the same-side piece contains
    no explicitly restricted coefficient field of the OTHER side: without it the statement is false
@@ -102,6 +104,63 @@ Theorem C07_degree_one_criterion_several_functions : forall us E,
 Proof. exact lin1_addl. Qed.
 Print Assumptions C07_degree_one_criterion_several_functions.
 
+(* ---- product spaces: the kernel of a face ACCUMULATES the same-side blocks of all (trial, test) pairs;
+        on the plus face every block enters with the normal reversed (the reversal is applied to the new
+        block before it is added to what the face already has) ---- *)
+Theorem C07_boundary_minus_accumulates_the_blocks : forall (S : dfield) trials tests e0,
+  fields_on SMinus (piece trials tests SMinus SMinus (iden e0)) = true ->
+  ev S (read_minus (oiden (bnd_minus (split_bil cfg_repaired trials tests e0))))
+  = fsum S (map (fun u => fsum S (map (fun v =>
+      ev S (piece_key trials tests ((u, SMinus), (v, SMinus)) (iden e0))) tests)) trials).
+Proof. exact rep_bnd_minus_blocks. Qed.
+Print Assumptions C07_boundary_minus_accumulates_the_blocks.
+
+Theorem C07_boundary_plus_accumulates_the_blocks_with_reversed_normal : forall (S : dfield) trials tests e0,
+  fields_on SPlus (piece trials tests SPlus SPlus (iden e0)) = true ->
+  ev S (read_plus (oiden (bnd_plus (split_bil cfg_repaired trials tests e0))))
+  = fsum S (map (fun u => fsum S (map (fun v =>
+      ev S (piece_key trials tests ((u, SPlus), (v, SPlus)) (iden e0))) tests)) trials).
+Proof. exact rep_bnd_plus_blocks. Qed.
+Print Assumptions C07_boundary_plus_accumulates_the_blocks_with_reversed_normal.
+
+(* for an integrand additive and vanishing in the restricted trial symbols and in the restricted test
+   symbols, the accumulated blocks of a face are the same-side piece *)
+Theorem C07_boundary_kernels_are_the_pieces_several_functions : forall (S : dfield) trials tests e0,
+  addl (rs_of trials) (iden e0) -> addl (rs_of tests) (iden e0) ->
+  vanl (rs_of trials) (iden e0) -> vanl (rs_of tests) (iden e0) ->
+  (fields_on SMinus (piece trials tests SMinus SMinus (iden e0)) = true ->
+   ev S (read_minus (oiden (bnd_minus (split_bil cfg_repaired trials tests e0))))
+   = ev S (piece trials tests SMinus SMinus (iden e0))) /\
+  (fields_on SPlus (piece trials tests SPlus SPlus (iden e0)) = true ->
+   ev S (read_plus (oiden (bnd_plus (split_bil cfg_repaired trials tests e0))))
+   = ev S (piece trials tests SPlus SPlus (iden e0))).
+Proof. exact rep_faces_are_pieces. Qed.
+Print Assumptions C07_boundary_kernels_are_the_pieces_several_functions.
+
+Theorem C07_vanishing_criterion_several_functions : forall us E, lin1 (in_syms us) E = true -> vanl us E.
+Proof. exact lin1_vanl. Qed.
+Print Assumptions C07_vanishing_criterion_several_functions.
+
+(* the order matters (seeded change C06-n1): reversing the normal AFTER the block has been added to the
+   accumulated kernel of the plus face is harmless for one (trial, test) pair, and wrong for two *)
+Theorem C07_reversal_after_accumulation_same_for_one_pair : forall c u v e0,
+  bnd_plus (split_bil_late_flip c [u] [v] e0) = bnd_plus (split_bil c [u] [v] e0).
+Proof. exact late_flip_single_pair_same. Qed.
+Print Assumptions C07_reversal_after_accumulation_same_for_one_pair.
+
+Theorem C07_reversal_after_accumulation_refuted : forall (S : dfield) c,
+  ev S (read_plus (oiden (bnd_plus (split_bil_late_flip c ["u1"; "u2"] ["v"] ex_two_blocks))))
+  = fsub S (fmul S (fld S "u2" 0 SPlus) (fld S "v" 0 SPlus))
+           (fmul S (fmul S (fld S "u1" 0 SPlus) (fld S "v" 0 SPlus)) (nrm S SNone 0)) /\
+  ev S (read_plus (oiden (bnd_plus (split_bil c ["u1"; "u2"] ["v"] ex_two_blocks))))
+  = fadd S (fmul S (fld S "u2" 0 SPlus) (fld S "v" 0 SPlus))
+           (fmul S (fmul S (fld S "u1" 0 SPlus) (fld S "v" 0 SPlus)) (nrm S SNone 0)) /\
+  ev S (piece ["u1"; "u2"] ["v"] SPlus SPlus (iden ex_two_blocks))
+  = fadd S (fmul S (fld S "u2" 0 SPlus) (fld S "v" 0 SPlus))
+           (fmul S (fmul S (fld S "u1" 0 SPlus) (fld S "v" 0 SPlus)) (nrm S SNone 0)).
+Proof. exact late_flip_refuted. Qed.
+Print Assumptions C07_reversal_after_accumulation_refuted.
+
 (* ---- linear forms: two pieces, likewise ---- *)
 Theorem C07_linear_minus_is_piece : forall (S : dfield) v e0,
   fields_on SMinus (piece_lin [v] SMinus (iden e0)) = true ->
@@ -128,6 +187,37 @@ Theorem C07_linear_split_conserves : forall (S : dfield) v e0,
   = ev S (iden e0).
 Proof. exact rep_lin_conserves. Qed.
 Print Assumptions C07_linear_split_conserves.
+
+(* linear forms over product spaces: each face accumulates the blocks of the test functions *)
+Theorem C07_linear_kernels_accumulate_the_blocks : forall (S : dfield) tests e0,
+  (fields_on SMinus (piece_lin tests SMinus (iden e0)) = true ->
+   ev S (read_minus (oiden (bnd_minus (split_lin cfg_repaired tests e0))))
+   = fsum S (map (fun v => ev S (piece_lin_key tests (v, SMinus) (iden e0))) tests)) /\
+  (fields_on SPlus (piece_lin tests SPlus (iden e0)) = true ->
+   ev S (read_plus (oiden (bnd_plus (split_lin cfg_repaired tests e0))))
+   = fsum S (map (fun v => ev S (piece_lin_key tests (v, SPlus) (iden e0))) tests)) /\
+  ints (split_lin cfg_repaired tests e0) = [].
+Proof. exact rep_lin_blocks. Qed.
+Print Assumptions C07_linear_kernels_accumulate_the_blocks.
+
+Theorem C07_linear_split_conserves_several_functions : forall (S : dfield) tests e0,
+  fields_on SMinus (piece_lin tests SMinus (iden e0)) = true ->
+  fields_on SPlus (piece_lin tests SPlus (iden e0)) = true ->
+  addl (rs_of tests) (iden e0) ->
+  fadd S (ev S (read_minus (oiden (bnd_minus (split_lin cfg_repaired tests e0)))))
+         (ev S (read_plus (oiden (bnd_plus (split_lin cfg_repaired tests e0)))))
+  = ev S (iden e0).
+Proof. exact rep_lin_conserves_multi. Qed.
+Print Assumptions C07_linear_split_conserves_several_functions.
+
+Theorem C07_linear_kernels_are_the_pieces_several_functions : forall (S : dfield) tests e0,
+  addl (rs_of tests) (iden e0) -> vanl (rs_of tests) (iden e0) ->
+  (fields_on SMinus (piece_lin tests SMinus (iden e0)) = true ->
+   ev S (read_minus (oiden (bnd_minus (split_lin cfg_repaired tests e0)))) = ev S (piece_lin tests SMinus (iden e0))) /\
+  (fields_on SPlus (piece_lin tests SPlus (iden e0)) = true ->
+   ev S (read_plus (oiden (bnd_plus (split_lin cfg_repaired tests e0)))) = ev S (piece_lin tests SPlus (iden e0))).
+Proof. exact rep_lin_faces_are_pieces. Qed.
+Print Assumptions C07_linear_kernels_are_the_pieces_several_functions.
 
 (* ---- several interfaces of a multi-patch domain ---- *)
 Theorem C07_kernels_of_one_interface : forall c trials tests pre g post K0,
@@ -276,4 +366,80 @@ Example C07_linear_with_normal_conserved : forall S : dfield,
 Proof.
   intros S. apply rep_lin_conserves; try (vm_compute; reflexivity).
   apply lin1_additive2; vm_compute; reflexivity.
+Qed.
+
+(* ---- non-vacuity, product spaces: the interior-penalty coupling of seed C06-n1 on (u1, u2) x (v1, v2),
+        E(u1, v1) + 2 E(u1, v2) + 3 E(u2, v2),  E(u, v) = kappa [u][v] - [u]{Dn v} - {Dn u}[v] ---- *)
+Definition dF (w : string) (s : side) (al : list nat) : texpr := TAt (AFld true w 0 s al).
+Definition dnF (w : string) (s : side) : texpr :=
+  TAdd (TMul (dF w s [1]) (nN s 0)) (TMul (dF w s [0; 1]) (nN s 1)).
+Definition sipE (u v : string) : iex :=
+  IAdd (IAdd (IMul (IMul (IT (TAt (AConst "kappa"))) (IJump (dF u SNone []))) (IJump (dF v SNone [])))
+             (IOpp (IMul (IJump (dF u SNone [])) (IAvg (dnF v SNone)))))
+       (IOpp (IMul (IAvg (dnF u SNone)) (IJump (dF v SNone [])))).
+Definition sip_product : iex :=
+  IAdd (IAdd (sipE "u1" "v1") (IMul (IT (TZ 2)) (sipE "u1" "v2"))) (IMul (IT (TZ 3)) (sipE "u2" "v2")).
+
+Example C07_nonvacuous_product_space :
+  fields_on SMinus (piece ["u1"; "u2"] ["v1"; "v2"] SMinus SMinus (iden sip_product)) = true /\
+  fields_on SPlus (piece ["u1"; "u2"] ["v1"; "v2"] SPlus SPlus (iden sip_product)) = true /\
+  lin1 (in_syms (rs_of ["u1"; "u2"])) (iden sip_product) = true /\
+  lin1 (in_syms (rs_of ["v1"; "v2"])) (iden sip_product) = true /\
+  (* both faces carry an accumulated kernel, and six interface kernels are produced *)
+  (exists a b, bnd_minus (split_bil cfg_repaired ["u1"; "u2"] ["v1"; "v2"] sip_product) = Some a /\
+               bnd_plus (split_bil cfg_repaired ["u1"; "u2"] ["v1"; "v2"] sip_product) = Some b) /\
+  length (ints (split_bil cfg_repaired ["u1"; "u2"] ["v1"; "v2"] sip_product)) = 6 /\
+  (* with the reversal applied after the accumulation the plus-face kernel is a different one *)
+  tequiv (strip (oiden (bnd_plus (split_bil_late_flip cfg_repaired ["u1"; "u2"] ["v1"; "v2"] sip_product))))
+         (strip (oiden (bnd_plus (split_bil cfg_repaired ["u1"; "u2"] ["v1"; "v2"] sip_product)))) = false.
+Proof.
+  do 4 (split; [vm_compute; reflexivity|]).
+  split; [do 2 eexists; split; vm_compute; reflexivity|].
+  split; vm_compute; reflexivity.
+Qed.
+
+Lemma nodup_rs2 a b : a <> b -> NoDup (rs_of [a; b]).
+Proof.
+  intros H. simpl. repeat constructor; simpl; intuition; try discriminate;
+    match goal with X : (_, _) = (_, _) |- _ => inversion X; congruence end.
+Qed.
+
+(* the theorems for product spaces therefore apply to it, in every differential field *)
+Example C07_product_space_faces_are_pieces_and_conserved : forall S : dfield,
+  let P := split_bil cfg_repaired ["u1"; "u2"] ["v1"; "v2"] sip_product in
+  ev S (read_minus (oiden (bnd_minus P))) = ev S (piece ["u1"; "u2"] ["v1"; "v2"] SMinus SMinus (iden sip_product)) /\
+  ev S (read_plus (oiden (bnd_plus P))) = ev S (piece ["u1"; "u2"] ["v1"; "v2"] SPlus SPlus (iden sip_product)) /\
+  fadd S (fadd S (ev S (read_minus (oiden (bnd_minus P)))) (ev S (read_plus (oiden (bnd_plus P)))))
+         (fsum S (map (fun ke => ev S (iden (snd ke))) (ints P)))
+  = ev S (iden sip_product).
+Proof.
+  intros S P.
+  assert (N1 : NoDup (rs_of ["u1"; "u2"])) by (apply nodup_rs2; discriminate).
+  assert (N2 : NoDup (rs_of ["v1"; "v2"])) by (apply nodup_rs2; discriminate).
+  assert (A1 : addl (rs_of ["u1"; "u2"]) (iden sip_product)) by (apply lin1_addl; auto; vm_compute; reflexivity).
+  assert (A2 : addl (rs_of ["v1"; "v2"]) (iden sip_product)) by (apply lin1_addl; auto; vm_compute; reflexivity).
+  assert (V1 : vanl (rs_of ["u1"; "u2"]) (iden sip_product)) by (apply lin1_vanl; vm_compute; reflexivity).
+  assert (V2 : vanl (rs_of ["v1"; "v2"]) (iden sip_product)) by (apply lin1_vanl; vm_compute; reflexivity).
+  destruct (rep_faces_are_pieces S ["u1"; "u2"] ["v1"; "v2"] sip_product A1 A2 V1 V2) as [Hm Hp].
+  split; [apply Hm; vm_compute; reflexivity|].
+  split; [apply Hp; vm_compute; reflexivity|].
+  apply rep_conserves_multi; auto; vm_compute; reflexivity.
+Qed.
+
+(* a linear form on three test functions, each with a normal-dependent plus-side part:
+   kappa avg(Dn v1) + jump(v2) n_0 - 2 plus(Dn v3) *)
+Definition lin_product : iex :=
+  IAdd (IAdd (IMul (IT (TAt (AConst "kappa"))) (IAvg (dnF "v1" SNone)))
+             (IMul (IJump (dF "v2" SNone [])) (IT (nN SNone 0))))
+       (IOpp (IMul (IT (TZ 2)) (IT (dnF "v3" SPlus)))).
+
+Example C07_linear_product_space_conserved : forall S : dfield,
+  fadd S (ev S (read_minus (oiden (bnd_minus (split_lin cfg_repaired ["v1"; "v2"; "v3"] lin_product)))))
+         (ev S (read_plus (oiden (bnd_plus (split_lin cfg_repaired ["v1"; "v2"; "v3"] lin_product)))))
+  = ev S (iden lin_product).
+Proof.
+  intros S. apply rep_lin_conserves_multi; try (vm_compute; reflexivity).
+  apply lin1_addl; [|vm_compute; reflexivity].
+  simpl. repeat constructor; simpl; intuition; try discriminate;
+    match goal with X : (_, _) = (_, _) |- _ => inversion X; congruence end.
 Qed.
